@@ -10,7 +10,8 @@ from ..persist import attrs_assigned, _ctor_obj
 LEVEL_TEXT = ('Static lockstep analysis of the four parallel per-ellipsoid records of Union '
               '(bounds, points_bounds, block; log_v_all derived) along every bounded path of '
               'split and trim, record/ellipsoid consistency of the pushed elements, '
-              'validate-before-mutate for refused operations and cache invalidation.')
+              'validate-before-mutate for refused operations and cache invalidation.'
+              ' Plus: refusal test polarity and summed children volumes, cluster top-up arithmetic (both clusters keep n_points_min), stabilised exponentials, argument isolation (recorded points never written through a call).')
 
 G_UNION = Group('G_union', ['bounds', 'points_bounds', 'block'])
 
